@@ -39,6 +39,8 @@ type sourceFragment struct {
 	program            *analysis.ProgramInfo
 	simpleCheckpoint   factstore.FactStoreWithRemove
 	temporalCheckpoint factstore.TemporalFactStore
+	// The predicates that were known before this fragment was pushed.
+	knownCheckpoint map[ast.PredicateSym]ast.Decl
 }
 
 // Interpreter is an interactive interpreter.
@@ -199,7 +201,7 @@ func (i *Interpreter) Load(pathset string) error {
 }
 
 func (i *Interpreter) pushLoadedFragment(pathset string, units []parse.SourceUnit) error {
-	programInfo, err := analysis.AnalyzeAndCheckBounds(units, i.knownPredicates, analysis.ErrorForBoundsMismatch)
+	programInfo, err := analysis.AnalyzeAndCheckBounds(units, copyDecls(i.knownPredicates), analysis.ErrorForBoundsMismatch)
 	if err != nil {
 		return err
 	}
@@ -295,7 +297,7 @@ func (i *Interpreter) Define(clauseText string) error {
 		return fmt.Errorf("parsing failed: %v", err)
 	}
 	i.resetInteractiveDefs(buffer)
-	programInfo, err := analysis.AnalyzeOneUnit(unit, i.knownPredicates)
+	programInfo, err := analysis.AnalyzeOneUnit(unit, copyDecls(i.knownPredicates))
 	if err != nil {
 		return fmt.Errorf("analysis failed: %v", err)
 	}
@@ -408,9 +410,19 @@ func (i *Interpreter) Preload(units []parse.SourceUnit, store factstore.FactStor
 	return i.pushLoadedFragment(preloadPathset, units)
 }
 
+// copyDecls returns a copy of a declaration map. Analysis may delete entries from
+// the map of known predicates it is given, so it always gets a copy.
+func copyDecls(decls map[ast.PredicateSym]ast.Decl) map[ast.PredicateSym]ast.Decl {
+	c := make(map[ast.PredicateSym]ast.Decl, len(decls))
+	for sym, decl := range decls {
+		c[sym] = decl
+	}
+	return c
+}
+
 func (i *Interpreter) pushSourceFragment(pathset string, units []parse.SourceUnit, programInfo *analysis.ProgramInfo) {
 	i.src = append(i.src, pathset)
-	i.sourceFragments[pathset] = &sourceFragment{units, programInfo, i.simpleStore, i.temporalStore}
+	i.sourceFragments[pathset] = &sourceFragment{units, programInfo, i.simpleStore, i.temporalStore, copyDecls(i.knownPredicates)}
 	for _, decl := range programInfo.Decls {
 		i.knownPredicates[decl.DeclaredAtom.Predicate] = *decl
 	}
@@ -451,9 +463,9 @@ func (i *Interpreter) popSourceFragment() *sourceFragment {
 	f := i.sourceFragments[path]
 	i.src = i.src[:l-1]
 	delete(i.sourceFragments, path)
-	for _, decl := range f.program.Decls {
-		delete(i.knownPredicates, decl.DeclaredAtom.Predicate)
-	}
+	// f.program.Decls also holds the declarations of earlier fragments (they were
+	// passed to analysis as known predicates); only forget what this fragment added.
+	i.knownPredicates = f.knownCheckpoint
 	i.simpleStore = f.simpleCheckpoint
 	i.temporalStore = f.temporalCheckpoint
 	i.updateCombinedStore()
